@@ -20,7 +20,7 @@ CONSTANTS D, MaxPh,
           Aligns,        \* subset of {"", "<", "^", ">"}
           Widths,        \* subset of {"", "0", "1", "3", "05", "65535", "65536", "99999999999"}
           Truncs,        \* subset of BOOLEAN
-          Styles,        \* subset of {"", "r", "rb", "x"}:  none  .red  .red/blue  .bold.on_blue
+          Styles,        \* subset of {"", "r", "rb", "x", "u", "ub", "ru"}:  none  .red  .red/blue  .bold.on_blue  .italic  .orange/blue  .red.sparkly/grey
           Colors,        \* TRUE: the driver enables colours (the monitor drops zero-width cells)
           BacktrackMode, OverflowMode
 VARIABLES cells, items, np, nph, done
@@ -40,6 +40,10 @@ WidthCells(w) == CASE w = "0" -> <<48>> [] w = "1" -> <<49>> [] w = "3" -> <<51>
 StyleCells(s) == CASE s = "r" -> <<<<114, 101, 100>>, <<>>>>
                    [] s = "rb" -> <<<<114, 101, 100>>, <<98, 108, 117, 101>>>>
                    [] s = "x" -> <<<<98, 111, 108, 100, 46, 111, 110, 95, 98, 108, 117, 101>>, <<>>>>          \* .bold.on_blue
+                   (* style words the colour library does not know: they set nothing and leave nothing behind *)
+                   [] s = "u" -> <<<<105, 116, 97, 108, 105, 99>>, <<>>>>                                  \* .italic
+                   [] s = "ub" -> <<<<111, 114, 97, 110, 103, 101>>, <<98, 108, 117, 101>>>>          \* .orange/blue
+                   [] s = "ru" -> <<<<114, 101, 100, 46, 115, 112, 97, 114, 107, 108, 121>>, <<103, 114, 101, 121>>>>          \* .red.sparkly/grey
                    [] OTHER -> <<<<>>, <<>>>>
 
 SpecialPiece(s) == CASE s = "LB" -> PcOpenEsc [] s = "RB" -> PcCloseEsc [] s = "NL" -> PcNewLine
